@@ -362,6 +362,86 @@ func partC09(a *hcli.Args, rep *report.Report, univName string, u *schema.Univer
 		}
 		s5.Class("encoded:patch-of-record-with-includes")
 	}
+	// earlier use of the library: the encoding of a partial update does not depend on the partial updates of the
+	// same record type encoded or decoded before it in this process
+	{
+		sh := rep.S("patch-history")
+		sh.Bounds = "every record with a generated partial update x {set one field, delete one field, both on different fields}: each encoded first in a fresh process state, then again after every other one was encoded and after a delete-only / set-only document was decoded; json and ROR2"
+		for _, w := range u.Wrappers {
+			if w.Kind != schema.Record {
+				continue
+			}
+			rt, ok := Reg[w.Name+"_PartialUpdate"]
+			if !ok {
+				continue
+			}
+			var setF, delF *schema.Field
+			for _, f := range w.AllFields() {
+				if delF == nil && f.Optional {
+					delF = f
+				} else if setF == nil {
+					setF = f
+				}
+			}
+			if setF == nil || delF == nil {
+				continue
+			}
+			mk := func(set, del bool) reflect.Value {
+				p := &cPatch{T: w}
+				if set {
+					p.Set = map[string]*schema.V{setF.Name: schema.Base(setF.Type)}
+				}
+				if del {
+					p.Delete = []string{delF.Name}
+				}
+				pv, okp := cPatchToGo(p, reflect.PtrTo(rt))
+				if !okp {
+					return reflect.Value{}
+				}
+				return pv
+			}
+			patches := map[string]reflect.Value{"set": mk(true, false), "delete": mk(false, true), "set+delete": mk(true, true)}
+			names := []string{"set", "delete", "set+delete"}
+			sh.States++
+			for _, f := range []string{"json", "header"} {
+				first := map[string]string{}
+				for _, n := range names {
+					if !patches[n].IsValid() {
+						continue
+					}
+					if out, err := encodeGo(patches[n], f); err == nil {
+						first[n] = out
+					}
+				}
+				// decode the delete-only and the set-only document into fresh objects
+				for _, n := range []string{"delete", "set"} {
+					if doc, ok := first[n]; ok {
+						if r, err := newReader(f, doc); err == nil {
+							_ = safeCall(func() error { return reflect.New(rt).Interface().(restlicodec.Unmarshaler).UnmarshalRestLi(r) })
+						}
+					}
+				}
+				for round := 0; round < 2; round++ {
+					for _, n := range names {
+						want, ok := first[n]
+						if !ok {
+							continue
+						}
+						out, err := encodeGo(patches[n], f)
+						sh.Evaluations++
+						sh.Transitions++
+						sh.Traces++
+						if err != nil || out != want {
+							rep.Fail(fmt.Sprintf("%s det patch-history %s %s", a.Gen, n, f), fmt.Sprintf("record %s, patch %q: encoded first as %s, after other partial updates of the type were encoded and decoded as %s (%v)", w.Name, n, want, out, err), nil)
+							sh.Class("fail")
+						} else {
+							sh.Class("ok:" + n)
+						}
+					}
+				}
+			}
+		}
+	}
 	if os.Getenv("VERIF_MAPROT") != "" {
 		s5.Class("iteration-start-owned")
 	} else {
